@@ -38,6 +38,7 @@ pub struct ZarrAsyncTraceStorage {
     draw_types: Vec<(String, ItemType)>,
     event_dim_of_stat: HashMap<String, String>,
     rt_handle: tokio::runtime::Handle,
+    store_warmup: bool,
 }
 
 /// Per-chain storage for async Zarr MCMC traces
@@ -52,6 +53,7 @@ pub struct ZarrAsyncChainStorage {
     pending_writes: Arc<tokio::sync::Mutex<JoinSet<Result<()>>>>,
     rt_handle: tokio::runtime::Handle,
     max_queued_writes: usize,
+    store_warmup: bool,
 }
 
 /// Write a chunk of data to a Zarr array asynchronously
@@ -277,6 +279,7 @@ impl ZarrAsyncChainStorage {
         chain: u64,
         rt_handle: tokio::runtime::Handle,
         event_dim_of_stat: HashMap<String, String>,
+        store_warmup: bool,
     ) -> Self {
         let draw_buffers: HashMap<String, SampleBuffer> = draw_types
             .iter()
@@ -303,6 +306,7 @@ impl ZarrAsyncChainStorage {
             // that we queue one write per draw.
             max_queued_writes: num_arrays.max(1),
             rt_handle,
+            store_warmup,
         }
     }
 
@@ -410,6 +414,10 @@ impl ChainStorage for ZarrAsyncChainStorage {
         draws: Vec<(&str, Option<Value>)>,
         info: &Progress,
     ) -> Result<()> {
+        if info.tuning && !self.store_warmup {
+            // Only post-warmup draws are stored.
+            return Ok(());
+        }
         let is_first_draw = self.last_sample_was_warmup && !info.tuning;
         if is_first_draw {
             self.warmup_event_counts = event_counts(&self.event_dim_of_stat, &self.stats_buffers);
@@ -861,6 +869,7 @@ impl StorageConfig for ZarrAsyncConfig {
                 draw_chunk_size,
                 event_dim_of_stat,
                 rt_handle,
+                store_warmup: self.store_warmup,
             })
         })
     }
@@ -880,6 +889,7 @@ impl TraceStorage for ZarrAsyncTraceStorage {
             chain_id as _,
             self.rt_handle.clone(),
             self.event_dim_of_stat.clone(),
+            self.store_warmup,
         ))
     }
 
